@@ -3,6 +3,7 @@
   one output line `model-answer | oracle verdicts | tags`.
 -/
 import ClockBound.Model.Oracles
+import ClockBound.Model.OraclesD
 namespace ClockBound.Driver
 open ClockBound
 
@@ -83,6 +84,122 @@ def client2Line (args : List String) (impl : List String) : String :=
     s!"{outcomeText o1} ; {outcomeText o2} | {v} | {String.intercalate "," tags}"
   | _ => "bad-op | |"
 
+
+/-! ### daemon lines -/
+
+def chronyOfInt (i : Int) : ChronyStatus :=
+  if i = 1 then .synchronized else if i = 2 then .freeRunning else .unknown
+
+def recordText (r : Record) : String :=
+  s!"rec {tsText r.asOf} {tsText r.voidAfter} {r.bound} {r.drift} {r.reserved} {r.status.code}"
+
+def parseRecord (toks : List String) : Option Record :=
+  match toks with
+  | "rec" :: rest => do
+    match ← ints rest with
+    | [a, b, c, d, bd, dr, rs, st] => some ⟨⟨a, b⟩, ⟨c, d⟩, bd, dr.toNat, rs.toNat, statusOfInt st⟩
+    | _ => none
+  | _ => none
+
+def mkTracking (leap ref off disp delay iv : Int) : Tracking :=
+  { leap := leap.toNat, refNs := ref, offW := off.toNat, dispW := disp.toNat, delayW := delay.toNat,
+    intervalW := iv.toNat }
+
+def trackingTags (t : Tracking) (now : Int) : List String :=
+  let off := F64.chronyFloat t.offW
+  let E := C07.exactNs t
+  (if off < 0 then ["negOffset"] else if off > 0 then ["posOffset"] else ["zeroOffset"]) ++
+  (if E ≠ (E.floor : Rat) then ["fracNs"] else []) ++
+  (if now < t.refNs then ["future"] else []) ++
+  (if t.leap ≤ 2 then ["leapSync"] else if t.leap = 3 then ["leap3"] else ["leapOther"]) ++
+  (let thr := C10.thresholdSecs t * 1000000000
+   if (now - t.refNs - thr).natAbs ≤ 1000000000 then ["nearStale"] else []) ++
+  (if now - t.refNs > C10.thresholdSecs t * 1000000000 then ["stale"] else ["fresh"])
+
+def extractLine (args : List String) (impl : List String) : String :=
+  match ints args with
+  | some [leap, ref, now, off, disp, delay, iv] =>
+    let t := mkTracking leap ref off disp delay iv
+    let (b, cs) := extractBound t now
+    let v := match ints impl with
+      | some [ib, ics] =>
+        String.intercalate " " [
+          verdict "C07" (C07.applicable t 0) (C07.Holds t 0 ib),
+          verdict "C07strict" (C07.applicable t 0) (C07.HoldsStrict t 0 ib),
+          verdict "C10" true (C10.Holds t now (chronyOfInt ics))]
+      | _ => "oracle:unparsed"
+    s!"{b} {cs.code} | {v} | {String.intercalate "," (trackingTags t now)}"
+  | _ => "bad-op | |"
+
+/-- one message of an `upd` history -/
+def parseMsg (toks : List String) : Option Msg :=
+  match toks with
+  | "d" :: rest => do
+    match ← ints rest with
+    | [leap, ref, now, off, disp, delay, iv, phc, as, an] =>
+      some (.data (mkTracking leap ref off disp delay iv) phc ⟨as, an⟩ now)
+    | _ => none
+  | ["nr_grace"] => some (.missing true)
+  | ["phc_grace"] => some (.missing true)
+  | ["nr"] => some (.missing false)
+  | ["phc"] => some (.missing false)
+  | _ => none
+
+def splitSemi (toks : List String) : List (List String) :=
+  (toks.splitOn ";").filter (fun l => !l.isEmpty)
+
+/-- abstract outcomes of a history, with the (bound, class) pairs supplied for the data messages -/
+def outcomes : List Msg → List (Int × ChronyStatus) → List PollOutcome
+  | [], _ => []
+  | .missing g :: ms, ps => .silence g :: outcomes ms ps
+  | .data _ phc a _ :: ms, (b, c) :: ps => .report (b + phc) c a :: outcomes ms ps
+  | .data _ phc a _ :: ms, [] => .report phc .unknown a :: outcomes ms []
+
+def pairsOf : List Int → List (Int × ChronyStatus)
+  | b :: s :: rest => (b, chronyOfInt s) :: pairsOf rest
+  | _ => []
+
+def countChanges : List Status → Nat
+  | a :: b :: rest => (if a != b then 1 else 0) + countChanges (b :: rest)
+  | _ => 0
+
+def updLine (args : List String) (impl : List String) : String :=
+  match splitSemi args with
+  | [drift] :: msgToks =>
+    match drift.toInt?, msgToks.mapM parseMsg' with
+    | some dr, some msgs' =>
+      let msgs := msgs'.filterMap id            -- "noise" messages are ignored by the writer
+      -- model
+      let recs := Updater.run (Updater.new dr.toNat) msgs
+      let mpairs := msgs.filterMap (fun m => match m with
+        | .data t _ _ now => some (extractBound t now) | _ => none)
+      let recTxt := recs.map recordText ++ (if recs.length < msgs.length then ["panic"] else [])
+      let pairTxt := mpairs.map (fun p => s!"{p.1} {p.2.code}")
+      let mtxt := (if recTxt.isEmpty then "none" else String.intercalate " ; " recTxt) ++ " ## " ++ String.intercalate " " pairTxt
+      -- oracle on the implementation's answer
+      let implParts := impl.splitOn "##"
+      let irecs : Option (List Record) := (splitSemi (implParts.headD [])).mapM parseRecord
+      let ipairs := (ints ((implParts.drop 1).headD [])).map pairsOf
+      let (v, tags) := match irecs, ipairs with
+        | some rs, some ps =>
+          let h := outcomes msgs ps
+          let noSyncPrefix := (List.range h.length).any (fun k => (lastSync (h.take (k+1))).isNone &&
+              (match h[k]? with | some o => o.cls != ChronyStatus.unknown | none => false))
+          let tags := (if h.length ≥ 3 then ["len3"] else []) ++
+            (if countChanges (rs.map Record.status) ≥ 1 then ["statusChange"] else []) ++
+            (if (lastSync h).isSome then ["hasSync"] else ["neverSync"]) ++
+            (if noSyncPrefix then ["trustTemptation"] else []) ++
+            (if msgs'.any (·.isNone) then ["noise"] else [])
+          (String.intercalate " " [verdict "C08" true (C08.Holds dr.toNat h rs),
+                                    verdict "C09" true (C09.Holds h rs)], tags)
+        | _, _ => ("C08:FAILS C09:FAILS oracle:unparsed", [])
+      s!"{mtxt} | {v} | {String.intercalate "," tags}"
+    | _, _ => "bad-op | |"
+  | _ => "bad-op | |"
+where
+  parseMsg' (toks : List String) : Option (Option Msg) :=
+    if toks == ["noise"] then some none else (parseMsg toks).map some
+
 def processLine (line : String) : String :=
   let parts := line.splitOn " => "
   let req := (parts.headD "").trimAscii.toString.splitOn " " |>.filter (· ≠ "")
@@ -90,6 +207,8 @@ def processLine (line : String) : String :=
   match req with
   | "client" :: args => clientLine args impl
   | "client2" :: args => client2Line args impl
+  | "extract" :: args => extractLine args impl
+  | "upd" :: args => updLine args impl
   | _ => "bad-op | |"
 
 end ClockBound.Driver
